@@ -16,7 +16,8 @@ from lib import jdfgen
 META = {
     "level": "model_checking",
     "text": "Generated PTG programs with data and control flows (chains in every iteration direction, range broadcasts, "
-            "control gathers, fan-in through several flows, ternary routing, READ forwarding, NEW, write-back) are compiled "
+            "control gathers, fan-in through several flows, ternary routing between tasks and between a task and the "
+            "collection in both orientations, READ forwarding, NEW, write-back to another tile than the one read) are compiled "
             "with both dependency back-ends and run under several schedulers and thread counts; bodies log the integers "
             "they read and write; TLC validates every execution against the dependency relation and the value semantics "
             "computed from the same AST: start only after the named predecessors ended, each input = the predecessor's "
@@ -27,7 +28,7 @@ META = {
     "technique": "TLA+ value/dependency semantics of generated JDF programs (TLC) + real executions + trace validation (TLC)",
 }
 
-DATA_TAGS = ("chain", "bcast", "mask2", "split", "pipe", "new")
+DATA_TAGS = ("chain", "bcast", "mask2", "split", "pipe", "new", "route")
 
 
 def programs(ctx):
